@@ -47,7 +47,124 @@ def _kb_required(events):
     return [n for n in need if n not in seen]
 
 
+def _h_interesting(e):
+    k = e["in"]["k"]
+    if k in ("PeerWhoAreYou", "PeerHandshake", "Replay", "Reflect", "Mutate", "PeerForget", "AgeSessions"):
+        return True
+    return any(o["e"] in ("RequestFailed", "Unverifiable", "Expired") for o in e["out"])
+
+
+def _h_required(events):
+    seen = set()
+    for e in events:
+        for o in e["out"]:
+            seen.add(o["e"] + (":" + o.get("dir", o.get("err", "")) if o["e"] in ("Established", "RequestFailed") else ""))
+        for n in e["net"]:
+            seen.add("net:" + n["kind"])
+            if n.get("same_as", "none") != "none":
+                seen.add("net:retransmission")
+        if "unresolved" not in e["in"]:
+            seen.add("in:" + e["in"]["k"])
+    need = ["Established:In", "Established:Out", "RequestFailed:Timeout", "RequestFailed:InvalidRemotePacket", "Response", "Request",
+            "WhoAreYou", "net:way", "net:hs", "net:msg", "net:rand", "in:Replay", "in:PeerHandshake", "in:PeerWhoAreYou"]
+    return [n for n in need if n not in seen]
+
+
+INJECTING = ("PeerRandom", "PeerWhoAreYou", "PeerHandshake", "PeerMessage", "Replay", "Reflect", "Mutate")
+FIELDS_MSG = ["iv", "proto", "version", "flag", "nonce", "authsize", "srcid", "ct", "tag"]
+
+
+def _mutations(kind, tier, rng, n_inj, idx):
+    """The tamper catalogue for one injected datagram (C02): flips in every field, truncations, extensions, splices, redirection."""
+    fields = list(FIELDS_MSG) + (["authtail"] if kind == "PeerHandshake" else [])
+    if kind == "PeerWhoAreYou":
+        fields = ["iv", "proto", "version", "flag", "nonce", "authsize", "authdata"]
+    per = 2 if tier == "quick" else 16
+    muts = []
+    for f in fields:
+        bits = {0, 7} if tier == "quick" else {0, 1, 7, 8, 15}
+        while len(bits) < per + 2:
+            bits.add(rng.randrange(0, 4096))
+        muts += [{"op": "flip", "field": f, "bit": b} for b in sorted(bits)]
+    muts += [{"op": "cut", "n": n} for n in ([1, 16, 17] if tier == "quick" else [1, 2, 15, 16, 17, 32, 40])]
+    muts += [{"op": "trunc", "len": n} for n in ([62, 63] if tier == "quick" else [0, 1, 16, 39, 62, 63, 64, 70, 71])]
+    muts += [{"op": "extend", "n": n} for n in ([1] if tier == "quick" else [1, 16, 1000])]
+    muts += [{"op": "redirect"}]
+    for other in range(1, n_inj + 1):
+        if other != idx:
+            muts += [{"op": "splice", "part": "header", "other": other}, {"op": "splice", "part": "body", "other": other}]
+    return muts
+
+
+def handler_mutants(behaviours, tier, seed):
+    """Derives tampered behaviours from base behaviours: prefix up to (and including) each injecting step, then one tampered
+    variant of one datagram injected so far, presented from the genuine or from another source address."""
+    import random
+    rng = random.Random(seed)
+    out = []
+    for b in behaviours:
+        inj = []          # (position in b, kind, from)
+        for pos, st in enumerate(b):
+            if st.get("k") in INJECTING:
+                inj.append((pos, st["k"], st.get("from", "a1")))
+        for idx, (pos, kind, frm) in enumerate(inj, start=1):
+            if kind in ("Replay", "Reflect", "Mutate", "PeerRandom"):
+                continue
+            muts = _mutations(kind, tier, rng, len(inj), idx)
+            if tier == "quick" and len(muts) > 14:
+                muts = rng.sample(muts, 14)
+            for mu in muts:
+                ends = [len(b)] if tier == "quick" and rng.random() < 0.5 else [pos + 1, len(b)]
+                for end in ends:
+                    n_before = sum(1 for (p2, _, _) in inj if p2 < end)
+                    if mu.get("other", 0) > n_before:
+                        continue
+                    for src in ([frm] if (tier == "quick" and rng.random() < 0.7) else [frm, "aA"]):
+                        out.append(b[:end] + [{"k": "Mutate", "idx": idx, "from": src, "mut": mu}, {"k": "Quiesce"}])
+        # the genuine datagrams presented from another source address
+        for idx, (pos, kind, frm) in enumerate(inj, start=1):
+            if kind in ("PeerMessage", "PeerHandshake"):
+                out.append(b + [{"k": "Replay", "idx": idx, "from": "aA"}, {"k": "Quiesce"}])
+    return out
+
+
 PARTS = {
+    "handler_mut": dict(
+        component="handler", spec="MC_Handler.tla",
+        mc={"quick": ["MC_Handler_init.cfg"], "thorough": ["MC_Handler_init.cfg", "MC_Handler_tiny.cfg"]},
+        goals_cfg="MC_Handler_goal.cfg",
+        goals=["GoalBaseResponder", "GoalBaseInitiator", "GoalBaseRekeyed", ("GoalBaseAwaiting", "MC_Handler_goalnoenr.cfg")],
+        sim={"quick": [], "thorough": [dict(cfg="MC_Handler_sim.cfg", num=20, depth=30)]},
+        derive=handler_mutants,
+        drive={"quick": 0, "thorough": 0},
+        trace="Trace_Handler.tla", mon_cfg="Trace_Handler_mon.cfg", strict_cfg=None,
+        formulas={"C02.Delivered": "C02", "C02.MutantAccepted": "C02"},
+        interesting=lambda e: e["in"]["k"] in ("Mutate", "Replay"),
+        required=lambda events: [] if any(e["in"]["k"] == "Mutate" and e["in"].get("changed") for e in events) else ["Mutate"],
+        assumptions=["AEAD integrity is assumed, not proved: what is decided is that the code authenticates the received IV || header || auth-data, looks the session up by (claimed id, source address) and never delivers on a failure path",
+                     "tampering is done in the unmasked domain by the harness's own AES-CTR code (harness/src/mutate.rs); strict conformance is not checked on tampered behaviours (monitor pass only)"],
+    ),
+    "handler": dict(
+        component="handler", spec="MC_Handler.tla",
+        mc={"quick": ["MC_Handler_init.cfg"], "thorough": ["MC_Handler_init.cfg", "MC_Handler_tiny.cfg", "MC_Handler_atkq.cfg"]},
+        goals_cfg="MC_Handler_goal.cfg",
+        goals=["GoalSecondWay", "GoalNoRecordHs", "GoalRekeyPending", ("GoalRekeyReleasesPending", "MC_Handler_goalenr.cfg"), "GoalEnrlessDone", "GoalTimeoutAll", "GoalBadSigKeepsChallenge",
+               ("GoalForgedHs", "MC_Handler_goalatk.cfg"), ("GoalReplayedHs", "MC_Handler_goalatk.cfg")],
+        sim={"quick": [dict(cfg="MC_Handler_sim.cfg", num=60, depth=40)], "thorough": [dict(cfg="MC_Handler_sim.cfg", num=1500, depth=60)]},
+        append_ops=[{"k": "Quiesce"}],
+        drive={"quick": 0, "thorough": 0},
+        trace="Trace_Handler.tla", mon_cfg="Trace_Handler_mon.cfg", strict_cfg="Trace_Handler_strict.cfg",
+        formulas={"C01.Attribution": "C01", "C01.KeyDisclosed": "C01", "C02.Delivered": "C02", "C02.MutantAccepted": "C02",
+                  "C03.ReplayAccepted": "C03", "C03.NoChallenge": "C03", "C03.WrongSource": "C03", "C03.TwoHandshakes": "C03",
+                  "C04.TwoOutcomes": "C04", "C04.EventAfterOutcome": "C04", "C04.NoOutcome": "C04", "C04.TimeoutUnjustified": "C04", "C04.WireBound": "C04",
+                  "C13.Count": "C13", "C13.LeftOver": "C13", "C15.Capacity": "C15", "C15.StaleSessionUsed": "C15",
+                  "C19.NonceReuse": "C19", "C19.IdNonceReuse": "C19"},
+        interesting=_h_interesting, required=_h_required,
+        assumptions=["the real Handler::start() loop runs on a paused tokio clock over a virtual socket (hook H1); socket/recv.rs and send.rs (UDP I/O, packet filter call order) are bypassed",
+                     "remote parties are played by the harness with real keys through the crate's own Session/Packet primitives: an error shared by both ends of a primitive is invisible",
+                     "symbolic cryptography in the specification (signatures, KDF and AEAD are perfect)",
+                     "session ageing by the verif_age hook (std::time) independent of the request-timeout clock (tokio)"],
+    ),
     "kb": dict(
         component="kb", spec="MC_KBuckets.tla",
         mc={"quick": [], "thorough": []},       # per property, see PROPS
@@ -85,7 +202,13 @@ PROPS = {
     "C07": dict(parts=[dict(name="kb", mc={"quick": ["MC_KBuckets_b.cfg", "MC_KBuckets_4.cfg"],
                                            "thorough": ["MC_KBuckets_b.cfg", "MC_KBuckets_4.cfg", "MC_KBuckets_5.cfg", "MC_KBuckets_mid.cfg"]})]),
     "C08": dict(parts=[dict(name="kb", mc={"quick": ["MC_KBuckets_c08q.cfg"], "thorough": ["MC_KBuckets_c08.cfg"]})]),
-    "C15": dict(parts=[dict(name="lru")]),
+    "C01": dict(parts=[dict(name="handler", mc={"quick": ["MC_Handler_atkq.cfg"], "thorough": ["MC_Handler_atkq.cfg", "MC_Handler_tiny.cfg"]})]),
+    "C02": dict(parts=[dict(name="handler_mut")]),
+    "C03": dict(parts=[dict(name="handler", mc={"quick": ["MC_Handler_atkq.cfg"], "thorough": ["MC_Handler_atkq.cfg", "MC_Handler_tiny.cfg"]})]),
+    "C04": dict(parts=[dict(name="handler")]),
+    "C13": dict(parts=[dict(name="handler")]),
+    "C19": dict(parts=[dict(name="handler")]),
+    "C15": dict(parts=[dict(name="lru"), dict(name="handler", mc={"quick": [], "thorough": ["MC_Handler_time.cfg"]})]),
     "C16": dict(parts=[dict(name="kb", mc={"quick": ["MC_KBuckets_c16.cfg", "MC_KBuckets_c16b.cfg"],
                                            "thorough": ["MC_KBuckets_c16.cfg", "MC_KBuckets_c16b.cfg", "MC_KBuckets_c16c.cfg"]})]),
 }
